@@ -131,26 +131,57 @@ func runNative(repo, hdir, workDir string, names []string, cases []nativeCase, r
 	os.WriteFile(ovPath, ov, 0o644)
 	batchPath := filepath.Join(workDir, "batch.json")
 	outPath := filepath.Join(workDir, "out.json")
-	os.Remove(outPath)
-	b, _ := json.Marshal(cases)
-	os.WriteFile(batchPath, b, 0o644)
-	args := []string{"test", "-vet=off", "-count=1", "-run", "^TestVerifReplay$", "-overlay", ovPath, "-timeout", "20m"}
-	if race {
-		args = append(args, "-race")
-	}
-	args = append(args, ".")
-	cmd := exec.Command("go", args...)
-	cmd.Dir = repo
-	cmd.Env = append(goEnv(), "VERIF_BATCH="+batchPath, "VERIF_OUT="+outPath)
-	outb, err := cmd.CombinedOutput()
-	log := string(outb)
-	data, rerr := os.ReadFile(outPath)
-	if rerr != nil {
-		return nil, log, fmt.Errorf("native run produced no results (%v): %s", err, tail(log, 2000))
-	}
 	var results []nativeResult
-	if jerr := json.Unmarshal(data, &results); jerr != nil {
-		return nil, log, jerr
+	var log string
+	remaining := cases
+	// The native twin writes one result line per finished case. A case that kills the process (Go's unrecoverable
+	// fatal errors: unlock of an unlocked mutex, concurrent map writes, stack exhaustion ...) is recorded with
+	// outcome "fatal" and the run is resumed behind it.
+	for restarts := 0; len(remaining) > 0; restarts++ {
+		os.Remove(outPath)
+		b, _ := json.Marshal(remaining)
+		os.WriteFile(batchPath, b, 0o644)
+		args := []string{"test", "-vet=off", "-count=1", "-run", "^TestVerifReplay$", "-overlay", ovPath, "-timeout", "20m"}
+		if race {
+			args = append(args, "-race")
+		}
+		args = append(args, ".")
+		cmd := exec.Command("go", args...)
+		cmd.Dir = repo
+		cmd.Env = append(goEnv(), "VERIF_BATCH="+batchPath, "VERIF_OUT="+outPath)
+		outb, err := cmd.CombinedOutput()
+		log += string(outb)
+		data, rerr := os.ReadFile(outPath)
+		if rerr != nil {
+			return nil, log, fmt.Errorf("native run produced no results (%v): %s", err, tail(log, 2000))
+		}
+		got := 0
+		for _, line := range strings.Split(string(data), "\n") {
+			if strings.TrimSpace(line) == "" {
+				continue
+			}
+			var r nativeResult
+			if jerr := json.Unmarshal([]byte(line), &r); jerr != nil {
+				return nil, log, jerr
+			}
+			results = append(results, r)
+			got++
+		}
+		if got >= len(remaining) {
+			break
+		}
+		if !strings.Contains(string(outb), "fatal error:") || restarts >= 16 {
+			return nil, log, fmt.Errorf("native run stopped after %d of %d cases (%v): %s", got, len(remaining), err, tail(string(outb), 2000))
+		}
+		fatal := string(outb)
+		if i := strings.Index(fatal, "fatal error:"); i >= 0 {
+			fatal = fatal[i:]
+		}
+		if len(fatal) > 1500 {
+			fatal = fatal[:1500]
+		}
+		results = append(results, nativeResult{ID: remaining[got].ID, Outcome: "fatal", Detail: fatal})
+		remaining = remaining[got+1:]
 	}
 	m := map[string]nativeResult{}
 	for _, r := range results {
@@ -408,7 +439,7 @@ func cmdCheck(args []string) {
 			ok := false
 			switch v.Kind {
 			case "panic":
-				ok = r.Outcome == "panic" || r.Outcome == "timeout"
+				ok = r.Outcome == "panic" || r.Outcome == "timeout" || r.Outcome == "fatal"
 			case "assert":
 				for _, f := range r.Failed {
 					if f == v.Label {
@@ -668,7 +699,7 @@ func doReplay(repo, root, hdir, path string) int {
 	r := res["r"]
 	fmt.Printf("replay %s: outcome=%s failed=%v\n%s\n", rf.Harness, r.Outcome, r.Failed, r.Detail)
 	reproduced := false
-	if rf.Kind == "panic" && (r.Outcome == "panic" || r.Outcome == "timeout") {
+	if rf.Kind == "panic" && (r.Outcome == "panic" || r.Outcome == "timeout" || r.Outcome == "fatal") {
 		reproduced = true
 	}
 	for _, f := range r.Failed {
